@@ -460,3 +460,6 @@ class C11(Prop):
 
 
 PROP = C11()
+
+PROP.rule += (" Strata added while closing seeded changes (DESIGN section 10): "
+              'bare header lines, multi-period units, curve counts 7..36, comma/tab spacers, DLM COMMA/TAB inputs with blank-holding text cells.')
